@@ -1128,7 +1128,10 @@ func (p *pipe) Do(ctx context.Context, cmd Completed) (resp RedisResult) {
 		resp = NewErrorResult(p.Error())
 	}
 
-	if left := p.decrWaitsAndIncrRecvs(); state == 0 && left != 0 {
+	// A caller that was the first one in (waits == 1) is the one later callers rely on to start the background
+	// worker: they queued because waits != 1. It must do so even if Close() has moved the state on before this
+	// caller loaded it; otherwise the queued callers are never served nor failed.
+	if left := p.decrWaitsAndIncrRecvs(); (state == 0 || waits == 1) && left != 0 {
 		p.background()
 	}
 	return resp
@@ -1239,7 +1242,7 @@ func (p *pipe) DoMulti(ctx context.Context, multi ...Completed) *redisresults {
 			resp.s[i] = err
 		}
 	}
-	if left := p.decrWaitsAndIncrRecvs(); state == 0 && left != 0 {
+	if left := p.decrWaitsAndIncrRecvs(); (state == 0 || waits == 1) && left != 0 { // see Do
 		p.background()
 	}
 	return resp
